@@ -50,10 +50,16 @@ func NewCacheKeystoreWrapper(size int) (*Cache, error) {
 	return cache, nil
 }
 
-// Add value by keyID
+// Add value by keyID. The keystore purges an entry by adding a nil value:
+// such an entry is removed, so that the next read loads the key from the storage again
+// instead of taking the nil for a cached (and then undecryptable) key.
 func (cache *Cache) Add(keyID string, keyValue []byte) {
 	cache.mutex.Lock()
-	cache.lru.Add(keyID, keyValue)
+	if keyValue == nil {
+		cache.lru.Remove(keyID)
+	} else {
+		cache.lru.Add(keyID, keyValue)
+	}
 	cache.mutex.Unlock()
 }
 
